@@ -51,7 +51,13 @@ def datify(cls, d):
             return dat(d)
 
         fieldtypes = {f.name: f.type for f in fields(cls)}
-        return cls(**{f: datify(fieldtypes[f], d[f]) for f in d})  # recursive
+        vals = {f: datify(fieldtypes[f], d[f]) for f in d}  # recursive
+        inits = {f.name for f in fields(cls) if f.init}  # parameters of __init__
+        dom = cls(**{f: v for f, v in vals.items() if f in inits})
+        for f, v in vals.items():
+            if f not in inits:  # field(init=False) so assign, frozen or not
+                object.__setattr__(dom, f, v)
+        return dom
     except Exception:  # Fields in dict d don't match dataclass or something else
         return d  # not a dataclass so end recursion and next level up will process
 
